@@ -135,6 +135,8 @@ pub fn diff_subjects(
 ) {
     let mut a: Vec<Fr<'_>> = Vec::new();
     let mut b: Vec<Fr<'_>> = Vec::new();
+    let mut seen_p: std::collections::HashSet<u64> = std::collections::HashSet::new();
+    let mut seen_l: std::collections::HashSet<u64> = std::collections::HashSet::new();
     let mut c: Vec<Fr<'_>> = Vec::new();
     for class in uni.all_classes() {
         let (x, y, z) = (mapper.remap_class(class), mapper_p.remap_class(class), cache.remap_class(class));
@@ -171,6 +173,16 @@ pub fn diff_subjects(
                 cache.remap_frame(class, method, 0, None, Some(params), &mut c);
                 acc.observations += 1;
                 acc.outcome(h64(&("byparams", &b[..])), !b.is_empty());
+                if (!b.is_empty() || !c.is_empty()) && seen_p.insert(h64(&(class, method, b.len(), c.len(), b.iter().map(|f| (f.class.as_ptr() as usize, f.method.as_ptr() as usize)).collect::<Vec<_>>()))) {
+                    for (lab, s) in [("mapper-index", mapper_p), ("cache", cache)] {
+                        acc.observations += 1;
+                        if let Some(d) = s.frame_protocol(class, method, 0, None, Some(params)) {
+                            acc.violation(format!("diff:byparams:iterator-protocol:{}", lab), size, || {
+                                (format!("remap_frame({:?},{:?},params {:?}) on {}: {}", class, method, params, lab, d), case(json!({"kind":"byparams","class":class,"method":method,"params":params}), json!("every way of consuming the iterator sees the sequence of repeated next()"), json!(d)))
+                            });
+                        }
+                    }
+                }
                 if !frs_eq(&b, &c) {
                     acc.violation("diff:byparams", size, || {
                         (
@@ -201,6 +213,16 @@ pub fn diff_subjects(
         cache.remap_frame(class, method, line, file, None, &mut c);
         acc.observations += 2;
         acc.outcome(h64(&("byline", &a[..])), !a.is_empty());
+        if (!a.is_empty() || !c.is_empty()) && seen_l.insert(h64(&(class, method, a.len(), c.len(), a.iter().map(|f| (f.class.as_ptr() as usize, f.method.as_ptr() as usize, f.line)).collect::<Vec<_>>()))) {
+            for (lab, s) in [("mapper", mapper), ("cache", cache)] {
+                acc.observations += 1;
+                if let Some(d) = s.frame_protocol(class, method, line, file, None) {
+                    acc.violation(format!("diff:byline:iterator-protocol:{}", lab), size, || {
+                        (format!("remap_frame({:?},{:?},line {},file {:?}) on {}: {}", class, method, line, file, lab, d), case(json!({"kind":"byline","class":class,"method":method,"line":line as u64,"file":file}), json!("every way of consuming the iterator sees the sequence of repeated next()"), json!(d)))
+                    });
+                }
+            }
+        }
         if !frs_eq(&a, &c) {
             acc.violation("diff:byline", size, || {
                 (
@@ -528,7 +550,7 @@ pub fn run(tier: Tier) -> i32 {
         prop: "C02",
         tier,
         level: "model_checking",
-        rule: "states = mappings (all line histories of the AST scopes, all token strings of MS-T inside the representable domain, class blocks of the corpus files); in every state the complete query universe (class, method, frame by line, frame by parameters, throwable, text trace, typed trace, signature) is issued against the mapper, the mapper with parameter index and the cache (written->parsed); oracle = equality of the real answers. distinct = distinct mapper answers; non-trivial = non-empty answers".into(),
+        rule: "states = mappings (all line histories of the AST scopes, all token strings of MS-T inside the representable domain, class blocks of the corpus files); in every state the complete query universe (class, method, frame by line, frame by parameters, throwable, text trace, typed trace, signature) is issued against the mapper, the mapper with parameter index and the cache (written->parsed); for every distinct non-empty frame answer the iterators of mapper and cache are also consumed through nth / skip / step_by / last / count / size_hint and must show the sequence of repeated next(); oracle = equality of the real answers. distinct = distinct mapper answers; non-trivial = non-empty answers".into(),
         bounds: json!({"scopes": scopes}),
         assumptions: vec!["domain filter for MS-T / MS-F uses the implementation's own record iterator (subject of C05/C06)".into(), "names non-empty, line numbers < 2^32-1 (the property's stated domain)".into()],
         trusted_base: vec!["rustc/std".into(), "differential oracle: no model involved".into()],
